@@ -104,9 +104,21 @@ impl std::fmt::Display for TokErr {
     }
 }
 
+impl TokErr {
+    /// the harness error type chooses its own status, not always a 4xx one
+    fn status(&self) -> u16 {
+        match self.0.first().map(|s| s.as_str()).unwrap_or("") {
+            s if s.starts_with("missing") => 503,
+            s if s.starts_with("unknown-key") => 409,
+            s if s.starts_with("unknown-value") => 202,
+            _ => 418,
+        }
+    }
+}
+
 impl actix_web::ResponseError for TokErr {
     fn status_code(&self) -> actix_web::http::StatusCode {
-        actix_web::http::StatusCode::IM_A_TEAPOT
+        actix_web::http::StatusCode::from_u16(self.status()).unwrap()
     }
     fn error_response(&self) -> actix_web::HttpResponse<actix_web::body::BoxBody> {
         actix_web::HttpResponseBuilder::new(self.status_code()).insert_header(("x-tok", "1")).body(self.to_string())
@@ -115,7 +127,7 @@ impl actix_web::ResponseError for TokErr {
 
 impl axum::response::IntoResponse for TokErr {
     fn into_response(self) -> axum::response::Response {
-        (http::StatusCode::IM_A_TEAPOT, [("x-tok", "1")], self.to_string()).into_response()
+        (http::StatusCode::from_u16(self.status()).unwrap(), [("x-tok", "1")], self.to_string()).into_response()
     }
 }
 
@@ -199,7 +211,7 @@ impl ExpectedResponse for JsonError {
 }
 impl ExpectedResponse for TokErr {
     fn expected(&self) -> (u16, Vec<u8>, bool) {
-        (418, self.to_string().into_bytes(), true)
+        (self.status(), self.to_string().into_bytes(), true)
     }
 }
 
